@@ -109,7 +109,7 @@ def run(ctx):
             continue
         subsets = [s for n in range(1, len(ll)) for s in itertools.combinations(range(len(ll)), n)]
         if len(subsets) > 40:
-            subsets = rng.sample(subsets, 40 if not ctx.thorough() else 200)
+            subsets = rng.sample(subsets, min(len(subsets), 40 if not ctx.thorough() else 200))
         for sub in subsets:
             kept = [ln for i, ln in enumerate(ll) if i not in sub]
             cases.append((f"kit-{name}-minus-{'+'.join(ll[i][12:16].strip() for i in sub)}", C.join(base + [C.TER] + kept), []))
